@@ -17,7 +17,8 @@ import ast
 from optilint.model import dotted, walk_local, FuncVal
 from optilint.core import Incomplete
 from optilint.expr import Algebra, NotPolynomial, Rat, Poly
-from .common import src, same, calls_in
+from .common import src, same, calls_in, const_value, facts_at
+from optilint.cfg import cfg_of
 
 LEVEL = "other"
 RULE_TEXT = ("obligations = (method reachable from write() x state attribute not written) + (section header x declared count == "
@@ -35,8 +36,60 @@ def run(ctx):
     cls = ctx.need(f"{V}:VTKWriter")
     d1(ctx, cls)
     d2(ctx, cls)
+    d2_padding(ctx)
     ctx.trust("numpy shape semantics of zeros/tile/concatenate/vstack/hstack/reshape used by the writer (table in rules/C20.py)")
     ctx.assume("one element type per mesh; fields are admitted only through add_nodal_field / add_cell_field")
+
+
+def d2_padding(ctx):
+    """Records appended for spheres / contact edges are produced by default_values(fieldType, dataType): for every data-type branch the
+    padding record of a SCALARS / VECTORS / TENSORS field must have 1 / 3 / 3x3 components, like the records it is stacked under."""
+    rule = "D2/T6-padding-record-shape"
+    dv = ctx.need(f"{V}:default_values")
+    want = {"SCALARS": (), "VECTORS": (3,), "TENSORS": (3, 3)}
+
+    def shape(e):
+        if isinstance(e, ast.Constant):
+            return ()
+        if isinstance(e, ast.Call) and (dotted(e.func) or "").split(".")[-1] in ("array", "asarray", "zeros") and e.args:
+            a = e.args[0]
+            if (dotted(e.func) or "").endswith("zeros"):
+                if isinstance(a, ast.Tuple):
+                    return tuple(const_value(x) for x in a.elts)
+                return (const_value(a),)
+            return shape(a)
+        if isinstance(e, (ast.List, ast.Tuple)):
+            subs = {shape(x) for x in e.elts}
+            if len(subs) != 1:
+                return None
+            sub_ = subs.pop()
+            return None if sub_ is None else (len(e.elts),) + sub_
+        return None
+    cfg = cfg_of(dv)
+    seen = {}
+    for r in cfg.returns():
+        facts = facts_at(cfg, r)
+        ft = None
+        branch = []
+        for (a, pol, c) in facts:
+            t = src(a)
+            if isinstance(a, ast.Compare) and len(a.ops) == 1 and isinstance(a.ops[0], ast.Eq) and pol:
+                for k in want:
+                    if t.endswith("." + k):
+                        ft = k
+            if ft is None or not t.endswith("." + (ft or "")):
+                branch.append(("" if pol else "not ") + t[:60])
+        if ft is None:
+            continue
+        key = (ft, " & ".join(b for b in branch if "fieldType" not in b) or "first branch")
+        got = shape(r.ast.value)
+        seen.setdefault(ft, []).append(got)
+        ctx.decide(rule, got == want[ft], dv, r.ast, construct=f"{ft}[{key[1]}]", detail=f"padding record of shape {got}",
+                   bad_detail=f"default_values returns a record of shape {got} for {ft} fields in the branch [{key[1]}]; records of such fields have shape "
+                              f"{want[ft]}: the padded array would not hold one record per point/cell")
+    n_br = {k: len(v) for k, v in seen.items()}
+    if set(n_br) != set(want) or len(set(n_br.values())) != 1 or min(n_br.values()) < 2:
+        ctx.refuted(rule, dv, None, construct="all-field-types-in-every-branch", detail=f"padding records per field type: {n_br}; every data-type branch must cover SCALARS, VECTORS and TENSORS")
 
 
 def _methods(cls):
@@ -605,6 +658,8 @@ def variants(repo):
     from optilint.selftest import Variant, sub, sub_in_func, alpha_rename, reformat
     P = "optimism/VTKWriter.py"
     return [
+        Variant("integer tensor padding is one row", P, sub("            return np.array([[0, 0, 0],[0, 0, 0],[0, 0, 0]])", "            return np.array([0, 0, 0])"), "D2/T6-padding-record-shape"),
+        Variant("vector padding has two components", P, sub("            return np.array([0.0, 0.0, 0.0])", "            return np.array([0.0, 0.0])"), "D2/T6-padding-record-shape"),
         Variant("store padded records back", P, sub("                nodalFields[field] = fieldRecord\n", "                nodalFields[field] = fieldRecord\n                self.nodalFields[field] = fieldRecord\n"), "D1/T11-write-is-pure"),
         Variant("alias instead of copy", P, sub("        nodalFields = dict(self.nodalFields)", "        nodalFields = self.nodalFields"), "D1/T11-write-is-pure"),
         Variant("append in write path", P, sub_in_func("VTKWriter._write_coordinate_data", "        for spherePt in self.spheres:", "        self.sphereRadii.append(0.0)\n        for spherePt in self.spheres:"), "D1/T11-write-is-pure"),
